@@ -4,6 +4,7 @@ import (
 	"bufio"
 	"bytes"
 	"fmt"
+	"io"
 	"os"
 	"os/exec"
 	"path/filepath"
@@ -37,6 +38,8 @@ func raceWorker(seed uint64, iters, goroutines int) int {
 	for i, f := range fx {
 		rings[i] = makeRing(keysOf(f.p), "all", signersOf(f.p))
 	}
+	symKey, symID, otherBox := r.Bytes(32), r.Bytes(32), r.Bytes(32)
+	emptyRing := makeRing("_", "all", signersOf(fx[len(fx)-1].p))
 	payload := r.Bytes(500)
 	b62 := basex.Base62StdEncoding.EncodeToString(payload)
 	b58 := basex.Base58StdEncoding.EncodeToString(payload)
@@ -63,7 +66,7 @@ func raceWorker(seed uint64, iters, goroutines int) int {
 				i := rr.Intn(len(fx))
 				f := fx[i]
 				ring := rings[i]
-				switch rr.Intn(9) {
+				switch rr.Intn(11) {
 				case 0: // binary receive
 					switch f.p.name {
 					case "enc":
@@ -173,6 +176,45 @@ func raceWorker(seed uint64, iters, goroutines int) int {
 						_, pt, _, err := saltpack.Dearmor62SigncryptOpen(ct, ring, nil)
 						if err != nil || !bytes.Equal(pt, msg) {
 							fail("signcrypt round trip: %v", err)
+						}
+					}
+				case 8: // signcrypt round trip through a shared symmetric key and a resolver (no box key matches)
+					if f.p.name == "sc" {
+						msg := rr.Bytes(rr.Intn(300))
+						var sym saltpack.SymmetricKey
+						copy(sym[:], symKey)
+						ct, err := saltpack.SigncryptSeal(msg, ring, sigSecretFromBytes(f.p.sigSk),
+							[]saltpack.BoxPublicKey{boxPubFromBytes(boxPk(otherBox), false)},
+							[]saltpack.ReceiverSymmetricKey{{Key: sym, Identifier: symID}})
+						if err != nil {
+							fail("SigncryptSeal(symmetric): %v", err)
+							break
+						}
+						_, pt, err := saltpack.SigncryptOpen(ct, emptyRing, hResolver{ids: [][]byte{symID}, keys: [][]byte{symKey}})
+						if err != nil || !bytes.Equal(pt, msg) {
+							fail("symmetric signcrypt round trip: %v", err)
+						}
+					}
+				case 9: // streaming encrypt + streaming decrypt
+					if f.p.name == "enc" {
+						msg := rr.Bytes(rr.Intn(3000))
+						var buf bytes.Buffer
+						w, err := saltpack.NewEncryptArmor62Stream(saltpack.Version2(), &buf, boxSecretFromBytes(f.p.encSk), []saltpack.BoxPublicKey{boxPubFromBytes(boxPk(f.p.boxSk), rr.Intn(2) == 0)}, "")
+						if err != nil {
+							fail("NewEncryptArmor62Stream: %v", err)
+							break
+						}
+						w.Write(msg[:len(msg)/2])
+						w.Write(msg[len(msg)/2:])
+						w.Close()
+						_, rd, _, err := saltpack.NewDearmor62DecryptStream(saltpack.CheckKnownMajorVersion, &buf, ring)
+						if err != nil {
+							fail("NewDearmor62DecryptStream: %v", err)
+							break
+						}
+						pt, err := io.ReadAll(rd)
+						if err != nil || !bytes.Equal(pt, msg) {
+							fail("streaming encrypt/decrypt round trip: %v", err)
 						}
 					}
 				default: // frames
